@@ -22,6 +22,57 @@ def norm_ty(s):
     return s.strip()
 
 
+def _split_generics(s):
+    out, depth, cur = [], 0, ''
+    for ch in s:
+        if ch == '<':
+            depth += 1
+        elif ch == '>':
+            depth -= 1
+        if ch == ',' and depth == 0:
+            out.append(cur.strip())
+            cur = ''
+        else:
+            cur += ch
+    if cur.strip():
+        out.append(cur.strip())
+    return out
+
+
+def _iter_elem(gargs):
+    """element type of the iterator handed to iter::mls_encode / mls_encoded_len (its last type argument), or '?'"""
+    if not gargs:
+        return '?'
+    if len(gargs) >= 2:
+        # mls_encoded_len::<T, I>: the item type is explicit
+        return norm_ty(gargs[0]['s'])
+    t = norm_ty(gargs[0]['s'])
+    m = re.match(r'^(\w+)<(.*)>$', t)
+    if not m:
+        return '?'
+    parts = [p for p in _split_generics(m.group(2)) if not p.startswith("'")]
+    if m.group(1) in ('Values', 'ValuesMut', 'IntoValues', 'Iter', 'IterMut', 'IntoIter', 'Copied', 'Cloned') and parts:
+        # map iterators yield pairs unless they are Values
+        if m.group(1) in ('Iter', 'IterMut', 'IntoIter') and len(parts) >= 2:
+            return '(%s,%s)' % (parts[0], parts[1])
+        return parts[-1]
+    return '?'
+
+
+def _coll_elem(t2):
+    m = re.match(r'^(Vec|IntoIter|Iter)<(.*)>$', t2)
+    if m:
+        return _split_generics(m.group(2))[0]
+    m = re.match(r'^(?:Hash|BTree|Small|Large)Map<(.*)>$', t2)
+    if m:
+        ps = _split_generics(m.group(1))
+        if len(ps) >= 2:
+            return '(%s,%s)' % (ps[0], ps[1])
+    if t2 == 'str':
+        return 'u8'
+    return '?'
+
+
 def op_of_callee(c):
     """descriptor of a codec operation performed by a call (or a fn item passed as value)."""
     path = c['path'] if 'path' in c else c['fn']
@@ -34,7 +85,7 @@ def op_of_callee(c):
     if m:
         if m.group(1) == 'byte_vec':
             return ('bytes', '')
-        return ('iter', '')
+        return ('iter', _iter_elem(gargs))
     if name in ('mls_decode', 'mls_encode', 'mls_encoded_len') and not c.get('trait'):
         seg = path.split('::')
         return ('T', norm_ty(seg[-2]))
@@ -70,7 +121,10 @@ def block_ops(F, fn, key):
             for a in t['args']:
                 if a['k'] in ('copy', 'move') and not a['pl']['p'] and a['pl']['l'] in clos_local:
                     absorbed.add(clos_local[a['pl']['l']])
+    absorbed_elem = {}
     for ck in absorbed:
+        elems = [t for (m_, t) in closure_ops.get(ck, {}) if m_ == 'T']
+        absorbed_elem[ck] = elems[0] if len(set(elems)) == 1 else ('(%s)' % ','.join(sorted(set(elems))) if elems else '?')
         closure_ops[ck] = collections.Counter()
     for b in fn['blocks']:
         man = collections.Counter()
@@ -80,6 +134,12 @@ def block_ops(F, fn, key):
             c = t.get('callee')
             if c:
                 o = op_of_callee(c)
+                if o and o[0] == 'iter' and c.get('path', '').startswith('mls_rs_codec::iter::mls_decode_collection'):
+                    el = '?'
+                    for a in t['args']:
+                        if a['k'] in ('copy', 'move') and not a['pl']['p'] and clos_local.get(a['pl']['l']) in absorbed_elem:
+                            el = absorbed_elem[clos_local[a['pl']['l']]]
+                    o = ('iter', el)
                 if o:
                     man[o] += 1
             # fn items / closures passed as arguments
@@ -165,24 +225,22 @@ def path_multisets(F, key, want_success=True):
 
 
 def canon(ms, kind):
-    """normalise a path multiset for comparison across size/enc/dec."""
+    """normalise a path multiset for comparison across size/enc/dec: collection operations carry their element type when it
+    is derivable (`?` otherwise)"""
     c = collections.Counter()
     for (m, t), n in ms.items():
         if m == 'T':
             t2 = t
-            if t2.startswith('Vec<') or t2 == 'str' or t2.startswith('Iter<') or t2.startswith('IntoIter<'):
-                c[('coll', '')] += n
-                continue
-            if re.match(r'(Hash|BTree|Small|Large)Map<', t2):
-                c[('coll', '')] += n
+            if t2.startswith('Vec<') or t2 == 'str' or t2.startswith('Iter<') or t2.startswith('IntoIter<') or \
+                    re.match(r'(Hash|BTree|Small|Large)Map<', t2):
+                c[('coll', _coll_elem(t2))] += n
                 continue
             c[(m, t2)] += n
         elif m == 'iter':
-            c[('coll', '')] += n
+            c[('coll', t or '?')] += n
         else:
             c[(m, t)] += n
     return frozenset(c.items())
-
 
 
 def codec_types(F):
@@ -202,8 +260,24 @@ def compare_type(F, impls):
     for k in kinds:
         pms = path_multisets(F, impls[k], want_success=True)
         sets[k] = set(canon(pm, k) for pm in pms)
-    base = sets[kinds[0]]
-    bad = [k for k in kinds[1:] if sets[k] != base]
+    # a collection whose element type could not be derived in one impl is a wildcard for that impl's siblings
+    def wild(ss):
+        return any(m == 'coll' and t == '?' for fs in ss for ((m, t), n) in fs)
+
+    def blur(ss):
+        out = set()
+        for fs in ss:
+            c = collections.Counter()
+            for ((m, t), n) in fs:
+                c[(m, '?' if m == 'coll' else t)] += n
+            out.add(frozenset(c.items()))
+        return out
+    if any(wild(sets[k]) for k in kinds):
+        cmp_sets = {k: blur(sets[k]) for k in kinds}
+    else:
+        cmp_sets = sets
+    base = cmp_sets[kinds[0]]
+    bad = [k for k in kinds[1:] if cmp_sets[k] != base]
     return kinds, sets, bad
 
 
